@@ -9,7 +9,7 @@ from contracts.lists import LIST_CLASSES, element, make, concrete_element
 from spec import algebra as A
 
 POSES = ['SO2', 'SE2', 'SO3', 'SE3']
-LENS = [(1, 1), (1, 2), (2, 1), (2, 2), (1, 3), (3, 1), (3, 3), (2, 3), (3, 2)]
+LENS = [(1, 1), (1, 2), (2, 1), (2, 2), (1, 3), (3, 1), (3, 3), (2, 3), (3, 2), (2, 4), (4, 2)]    # (2,4): one length divides the other
 LENS_T = [(m, n) for m in range(1, 6) for n in range(1, 6)]
 SP = 'spatialmath.super_pose.SMPose.'
 SL = 'spatialmath.smuserlist.SMUserList.'
